@@ -22,6 +22,10 @@ def cases(tier, r):
     yield 'pair', {'seed': r.getrandbits(48), 'depth': r.choice([1, 2, 3]), 'n_edits': r.randint(1, 5),
                    'flavour': r.choice(['edits', 'edits', 'edits', 'unrelated', 'shared', 'deepcopy']),
                    'tuples': r.random() < 0.25}
+  for _ in range(150 if tier == 'quick' else 2500):
+    # values of a user-registered node type among the arguments, their fields edited in place
+    yield 'custom', {'seed': r.getrandbits(48), 'depth': r.choice([2, 3]), 'n_edits': r.randint(1, 4),
+                     'flavour': r.choice(['edits', 'edits', 'unrelated']), 'tuples': False, 'custom': True}
 
 
 def diff_canon(d):
@@ -49,7 +53,7 @@ def execute(case):
       return {'build_diff': f'raised TypeError: {e}'[:200], 'flavour': 'positional', 'kinds': [],
               'positional': True}, None
   old, new, kinds = pairs.make_pair(case['seed'], case['depth'], case['n_edits'], case['flavour'],
-                                    case.get('tuples', False))
+                                    case.get('tuples', False), custom=case.get('custom', False))
   obs = {'kinds': kinds, 'flavour': case['flavour']}
   try:
     graphs.encode(new)
@@ -95,6 +99,10 @@ def execute(case):
   if not obs['equal_new']:
     obs['got'] = graphs.canon(target, order_dicts=True)
     obs['want'] = new_before
+    try:
+      obs['same_values'] = graphs.skeleton(target) == graphs.skeleton(new)
+    except Exception:
+      obs['same_values'] = False
   obs['diff_unchanged'] = diff_canon(d) == dc
   obs['new_unchanged'] = graphs.canon(new, order_dicts=True) == new_before
   # in place: the root keeps its identity (apply_diff returns None and mutates `target`)
@@ -137,8 +145,13 @@ def oracle(case, real):
       f['class'] = 'diff-aligned-tuple'
     return f
   if not real['equal_new']:
-    return {'what': 'applying the diff to a copy of old does not yield new', 'got': real.get('got'),
-            'want': real.get('want'), 'kinds': real['kinds']}
+    f = {'what': 'applying the diff to a copy of old does not yield new', 'got': real.get('got'),
+         'want': real.get('want'), 'kinds': real['kinds']}
+    if case.get('custom') and real.get('same_values'):
+      # recorded finding: values of a user-registered node type are aligned as wholes (by ==), their
+      # children are then aligned elsewhere: all VALUES are right, objects inside them are shared
+      f['class'] = 'diff-custom-node-sharing'
+    return f
   if not real['diff_unchanged']:
     return {'what': 'apply_diff modified the diff'}
   if not real['new_unchanged']:
